@@ -340,7 +340,7 @@ theorem uk_text_gen (y m d : Nat) (v : Valid y m d) (hy : 32 ≤ y ∧ y < 9999)
   unfold dtCs
   rw [parse_numeric3_text a b yy tm s1 s2 hms us ha hb hyy hy4 h1 h2 ht, va, vb, vy]
   simp only [Option.map_some, if_true]
-  rw [uk_numeric_checked y m d v hy hms us]
+  rw [if_neg ht.nonneg, uk_numeric_checked y m d v hy hms us]
 
 /-- US text, general form -/
 theorem us_text_gen (y m d : Nat) (v : Valid y m d) (a b yy tm : List Char) (s1 s2 : Char) (hms us : Int)
@@ -352,6 +352,7 @@ theorem us_text_gen (y m d : Nat) (v : Valid y m d) (a b yy tm : List Char) (s1 
   unfold dtCs
   rw [parse_numeric3_text a b yy tm s1 s2 hms us ha hb hyy hy4 h1 h2 ht, va, vb, vy]
   simp only [Option.map_some, Bool.false_eq_true, if_false]
+  rw [if_neg ht.nonneg]
   have hu := us_parse_micro y m d v hms us
   unfold numeric3u at hu
   rw [hu]
@@ -369,6 +370,7 @@ theorem uk_rejects_us_text_gen (y m d : Nat) (hm : 1 ≤ m ∧ m ≤ 12) (hd : 1
   unfold dtCs
   rw [parse_numeric3_text a b yy tm s1 s2 hms us ha hb hyy hy4 h1 h2 ht, va, vb, vy]
   simp only [Option.map_some, Option.some.injEq, if_true]
+  rw [if_neg ht.nonneg]
   have hu := uk_rejects_us_micro y m d hm hd hms us
   unfold numeric3u at hu
   rw [hu]
@@ -383,6 +385,7 @@ theorem us_rejects_uk_text_gen (y m d : Nat) (hm : 1 ≤ m ∧ m ≤ 12) (hd : 1
   unfold dtCs
   rw [parse_numeric3_text a b yy tm s1 s2 hms us ha hb hyy hy4 h1 h2 ht, va, vb, vy]
   simp only [Option.map_some, Option.some.injEq, Bool.false_eq_true, if_false]
+  rw [if_neg ht.nonneg]
   have hu := us_rejects_uk_micro y m d hm hd hms us
   unfold numeric3u at hu
   rw [hu]
@@ -393,8 +396,13 @@ example : IsNumeral 2 "2".toList ∧ IsNumeral 2 "1".toList ∧ IsNumeral 4 "200
     ∧ TimeText " 03:04:05.000006".toList 11045000000 6 := by
   refine ⟨by decide, by decide, by decide, by decide, ?_⟩
   exact TimeText.frac ' ' "03".toList "04".toList "05".toList "000006".toList (Or.inl rfl) (by decide) (by decide) (by decide) (by decide)
+    (by decide) (by decide) (by decide)
 example : dtCs true "2.1.2000 03:04:05.000006".toList = some (.ok (mkDate 2000 1 2 + 11045000006)) := eq_of_okView (by decide +kernel)
 example : dtCs true "1/13/2000 10:30".toList = some (.error .value) := eq_of_isValueError (by decide +kernel)
+
+/-- an impossible time of day (`25:00`, `10:61`) makes dateutil raise: ValueError in both dialects, never a shifted instant -/
+example : dtCs true "13/01/2000 25:00:00".toList = some (.error .value) ∧ dtCs false "2000-01-13T10:61".toList = some (.error .value) :=
+  ⟨eq_of_isValueError (by decide +kernel), eq_of_isValueError (by decide +kernel)⟩
 
 /-! ### ISO text (the clause itself, not only what dt2str writes) -/
 
@@ -406,7 +414,7 @@ theorem iso_text (uk : Bool) (y m d : Nat) (v : Valid y m d) (yy mm dd tm : List
   unfold dtCs
   rw [parse_iso_text yy mm dd tm hms us hyy hy4 hmm hm2 hdd hd2 ht, vy, vm, vd]
   simp only [Option.map_some]
-  rw [decide_plain uk y m d v hms us]
+  rw [if_neg ht.nonneg, decide_plain uk y m d v hms us]
 
 /-- the ISO date alone, as `strftime('%Y-%m-%d')` writes it -/
 theorem iso_date_text (uk : Bool) (y m d : Nat) (v : Valid y m d) :
@@ -424,6 +432,7 @@ theorem iso_datetime_text (uk : Bool) (y m d h mi sec : Nat) (v : Valid y m d) (
   have hv := v; unfold Valid at hv
   have hb := dim_bounds y m hv.2.2.1 hv.2.2.2.1
   have ht := TimeText.hms l (pad2 h) (pad2 mi) (pad2 sec) hl (isNumeral_pad2 h) (isNumeral_pad2 mi) (isNumeral_pad2 sec)
+    (by rw [val_pad2 h (by omega)]; exact hh) (by rw [val_pad2 mi (by omega)]; exact hmi) (by rw [val_pad2 sec (by omega)]; exact hs)
   rw [val_pad2 h (by omega), val_pad2 mi (by omega), val_pad2 sec (by omega)] at ht
   rw [iso_text uk y m d v (pad4 y) (pad2 m) (pad2 d) _ _ 0 (isNumeral_pad4 y) rfl (isNumeral_pad2 m) rfl (isNumeral_pad2 d) rfl
     (val_pad4 y (by omega)) (val_pad2 m (by omega)) (val_pad2 d (by omega)) ht]
@@ -581,7 +590,7 @@ theorem dt2str_roundtrip (t : Int) (h0 : mkDate 1000 1 1 ≤ t) (h1 : t < MAXUS)
       rw [if_pos hz]
       rw [parse_compact y m d (by omega) (by omega) (by omega)]
       simp only [Option.map_some, Option.some.injEq]
-      rw [decide_plain uk y m d v, hdate]
+      rw [if_neg (Int.lt_irrefl 0), decide_plain uk y m d v, hdate]
       have : ofOrd (ordOf t) + 0 + 0 = t := by omega
       rw [this]; exact hrange
     · rw [if_neg hz]
@@ -594,7 +603,7 @@ theorem dt2str_roundtrip (t : Int) (h0 : mkDate 1000 1 1 ≤ t) (h1 : t < MAXUS)
         simp only [List.append_assoc, List.cons_append] 
         rw [e]
         simp only [Option.map_some, Option.some.injEq]
-        rw [decide_plain uk y m d v, hdate]
+        rw [if_neg (Int.not_lt.mpr (Int.natCast_nonneg _)), decide_plain uk y m d v, hdate]
         have : ofOrd (ordOf t) + (((todOf t).toNat / 1000000 / 3600 * 3600000000 + (todOf t).toNat / 1000000 / 60 % 60 * 60000000
             + (todOf t).toNat / 1000000 % 60 * 1000000 : Nat) : Int) + 0 = t := by omega
         rw [this]; exact hrange
@@ -604,7 +613,7 @@ theorem dt2str_roundtrip (t : Int) (h0 : mkDate 1000 1 1 ≤ t) (h1 : t < MAXUS)
         simp only [List.append_assoc, List.cons_append]
         rw [e]
         simp only [Option.map_some, Option.some.injEq]
-        rw [decide_plain uk y m d v, hdate]
+        rw [if_neg (Int.not_lt.mpr (Int.natCast_nonneg _)), decide_plain uk y m d v, hdate]
         have : ofOrd (ordOf t) + (((todOf t).toNat / 1000000 / 3600 * 3600000000 + (todOf t).toNat / 1000000 / 60 % 60 * 60000000
             + (todOf t).toNat / 1000000 % 60 * 1000000 : Nat) : Int) + (((todOf t).toNat % 1000000 : Nat) : Int) = t := by omega
         rw [this]; exact hrange
